@@ -51,15 +51,15 @@ impl Family {
 pub fn families(format: Format, tier: Tier) -> Vec<Family> {
     let (maxlen, max_lines) = match (format, tier) {
         (Format::Fasta, Tier::Quick) => (8, 5),
-        (Format::Fasta, Tier::Thorough) => (10, 7),
+        (Format::Fasta, Tier::Thorough) => (10, 6),
         (Format::Fastq, Tier::Quick) => (7, 5),
-        (Format::Fastq, Tier::Thorough) => (9, 7),
+        (Format::Fastq, Tier::Thorough) => (9, 6),
     };
     let (lead, trail): (&'static [usize], &'static [usize]) = match (format, tier) {
         (Format::Fasta, Tier::Quick) => (&[0, 1, 4], &[0, 2]),
-        (Format::Fasta, Tier::Thorough) => (&[0, 1, 2, 5], &[0, 1, 3]),
+        (Format::Fasta, Tier::Thorough) => (&[0, 1, 4], &[0, 1, 3]),
         (Format::Fastq, Tier::Quick) => (&[0], &[0, 2, 3]),
-        (Format::Fastq, Tier::Thorough) => (&[0, 1], &[0, 1, 2, 3, 4]),
+        (Format::Fastq, Tier::Thorough) => (&[0], &[0, 1, 2, 3, 4]),
     };
     let endings: &'static [Endings] = match tier {
         Tier::Quick => &[Endings::Lf, Endings::Crlf],
